@@ -24,6 +24,10 @@ def np():
   return numpy
 
 
+def n_box_ok(x, box, tol=1e-6):
+  return G.n_box_ok(x, box, tol)
+
+
 STUB_MODELS = ['leaf', 'tree', 'mf']
 
 
@@ -43,7 +47,8 @@ class C05(Prop):
                                     'DK.TreeGrad.tree_certified_sublevel', 'DK.TreeGrad.shipped_tree_first_order_certificate']}
   rule = ('fault enumeration: every SLSQP status 0..9 x success T/F x {leaf, tree, tree with MF adaptor} x prox None/0/>0 x s0 None/flat/device-shaped x callback; '
           'real solves: convex leaves of every class and trees (aggregate bounds, label balancing, MF adaptors), n <= 6 (8 thorough), all price shapes, prox on/off, '
-          's0 given/None, all-fixed devices, infeasible models; non-trivial: a real solve whose returned flow has >= 1 active constraint or bound')
+          's0 given/None (float and integer dtype), all-fixed devices, infeasible models, producers with zero-capacity slots behind MF / two-ratio adaptors, '
+          'histories solve -> leaf setter (bounds, cbounds, cost parameter) -> solve on the same tree compared with a fresh twin; non-trivial: a real solve whose returned flow has >= 1 active constraint or bound')
   sizes = {'quick': 60, 'thorough': 1500}
   assumptions = [
     'SLSQP is a parameter of the model: its convergence and the honesty of its `success` flag are runtime behaviour no theorem reaches (level: proof, partial); only the oracle observes them',
@@ -146,14 +151,26 @@ class C05(Prop):
       m = G.infeasible_model(rng, tier)
       return {'kind': 'infeasible', 'model': {'tree': m['tree'], 'n': m['n']}, 'why': m['why'],
               'p': G.gen_price(rng, G.model_rows(m), m['n']), 's0': None, 's0shape': 'flat', 'prox': None}
-    if r < 0.17:
+    if r < 0.16:
       m = self.fixed_model(rng, tier)
       return {'kind': 'real', 'model': m, 'p': G.gen_price(rng, G.model_rows(m), m['n']), 's0': None, 's0shape': 'flat', 'prox': None}
-    if r < 0.32:
+    if r < 0.28:
       n = rng.randint(1, 6 if tier == 'quick' else 8)
       d = G.convex_leaf(rng, tier, n, [rng.choice(['IDevice2', 'IDevice2', 'Device', 'PVDevice', 'CDevice'])], with_cbounds=False)
       return {'kind': 'closed', 'dev': d, 'p': [C.fs(C.dy(rng, -3, 3, 3)) for _ in range(n)]}
-    if r < 0.42:       # the proximal penalty is centred on the CALLER's start point, also where device.project would move it (MF adaptors)
+    if r < 0.38:       # producers with zero-capacity slots behind an MF adaptor: the documented conduit box is (-cap_t, 0)
+      m = G.mf_producer_model(rng, tier)
+      R, n = G.model_rows(m), m['n']
+      return {'kind': 'real', 'model': m, 'p': [C.fs(C.dy(rng, 0.25, 3, 3)) for _ in range(n)] if rng.random() < 0.7 else G.gen_price(rng, R, n),
+              's0': None, 's0shape': 'flat', 'prox': None}
+    if r < 0.48:       # solve, re-rate a leaf through its public setters, solve the SAME tree again: compared with a fresh twin
+      m, edit = G.history_model(rng, tier)
+      return {'kind': 'history', 'model': m, 'edit': edit, 'p': G.gen_price(rng, G.model_rows(m), m['n']), 'first': rng.choice(['solve', 'solve', 'touch'])}
+    if r < 0.52:       # integer-typed start point
+      m, flow, price = G.int_model(rng, tier)
+      return {'kind': 'real', 'model': m, 'p': price, 's0': flow, 's0shape': rng.choice(['flat', 'dev']), 's0dtype': 'int',
+              'prox': rng.choice([None, '2'])}
+    if r < 0.58:       # the proximal penalty is centred on the CALLER's start point, also where device.project would move it (MF adaptors)
       m = G.random_model(rng, tier, 'mf', nmax=4)
       return {'kind': 'real', 'model': m, 'p': G.gen_price(rng, G.model_rows(m), m['n']), 's0': G.dyadic_flow(rng, m),
               's0shape': rng.choice(['flat', 'dev']), 'prox': rng.choice(['1/2', '2', '8'])}
@@ -210,6 +227,13 @@ class C05(Prop):
                       'ftol': rng.choice([None, None, None, '1/1024', '1/1048576', '1/1073741824']),
                       'res': {'x': [C.fs(C.dy(rng, -4, 4, 3)) for _ in range(R*n)], 'success': rng.random() < 0.5, 'status': rng.choice([0, 4, 8]), 'message': 'stub'},
                       'probe': G.dyadic_flow(rng, m)})
+    for _ in range(6*reps):     # stubbed solve after an earlier use of the tree and a leaf re-rating: the optimiser sees the current table
+      m, edit = G.history_model(rng, tier)
+      R, n = G.model_rows(m), m['n']
+      c = self.stub_case(rng, tier, 'leaf', rng.choice(G.SLSQP_STATUSES), rng.random() < 0.6)
+      c.update({'model': m, 'edit': edit, 'p': G.gen_price(rng, R, n), 's0': None, 's0shape': 'flat', 'probe': G.dyadic_flow(rng, G.edited_model(m, edit))})
+      c['res']['x'] = [C.fs(C.dy(rng, -4, 4, 3)) for _ in range(R*n)]
+      out.append(c)
     for _ in range(count):
       out.append(self.real_case(rng, tier))
     return out
@@ -221,6 +245,9 @@ class C05(Prop):
     S = G.solve_module()
     m = case['model']
     dev = G.build_model(m)
+    if case.get('edit'):       # an earlier use of the tree, then a leaf re-rated through its public setters
+      G.touch(dev)
+      G.apply_edit(dev, case['edit'])
     p = G.price_arg(case['p'])
     s0 = G.flow_arg(case['s0'], m, case['s0shape']) if case['s0'] is not None else None
     prox = None if case['prox'] is None else C.pf(case['prox'])
@@ -267,7 +294,7 @@ class C05(Prop):
 
   def ops(self, case):
     if case['kind'] == 'stub':
-      m = case['model']
+      m = G.edited_model(case['model'], case['edit']) if case.get('edit') else case['model']
       base = {'tree': m['tree'], 'n': m['n'], 'P': case['p'], 's0': case['s0'], 'prox': case['prox'], 'cb': case['cb'], 'ftol': case.get('ftol'), 'maxiter': case.get('maxiter')}
       memo = {}
       def run():
@@ -293,6 +320,8 @@ class C05(Prop):
     k = case['kind']
     if k == 'stub':
       return self.oracle_stub(case)
+    if k == 'history':
+      return self.oracle_history(case)
     if k == 'closed':
       m = {'tree': G.leaf_tree(case['dev']), 'n': case['dev']['n']}
       return self.oracle_real(dict(case, model=m, s0=None, s0shape='flat', prox=None, kind='real'), closed=True, orig=case)
@@ -311,14 +340,15 @@ class C05(Prop):
                'detail': 'solve under a stubbed optimiser (status %d, success %s) raised %s: %s' % (res['status'], res['success'], type(e).__name__, str(e)[:200])}]
     code = outcome[0]
     if code in (2.0, 3.0):     # shortcut: the optimiser result is irrelevant — but only a fully fixed device may take it
-      lb, hb = G.model_box(case['model'])
+      mm = G.edited_model(case['model'], case['edit']) if case.get('edit') else case['model']
+      lb, hb = G.model_box(mm)
       if any(a != b for a, b in zip(lb, hb)):
         return [{'key': dict(key, kind='shortcut-on-free-device'),
                  'detail': 'solve %s without calling the optimiser although %d of %d slots are not fixed (bounds %s / %s)' % (
                    'returned' if code == 2.0 else 'raised', sum(a != b for a, b in zip(lb, hb)), len(lb), lb, hb)}]
       tol = C.pf(case['ftol']) if case.get('ftol') is not None else 1e-6
-      dev = G.build_model(case['model'])
-      v, what = G.violation(dev, n_.array(lb), case['model'])
+      dev = G.build_model(mm)
+      v, what = G.violation(dev, n_.array(lb), mm)
       if code == 2.0 and v > tol*(1 + 1e-9) + 1e-15:
         return [{'key': dict(key, kind='infeasible-return', shortcut=True),
                  'detail': 'fixed-flow shortcut returned %s which violates %s by %.3g (tolerance %g)' % (lb, what, v, tol)}]
@@ -363,9 +393,14 @@ class C05(Prop):
       return []
     p = G.price_arg(case['p'])
     s0 = G.flow_arg(case['s0'], m, case['s0shape']) if case['s0'] is not None else None
+    if s0 is not None and case.get('s0dtype') == 'int':
+      s0 = G.int_flow_arg(case['s0'], m, case['s0shape'])
     prox = None if case.get('prox') is None else C.pf(case['prox'])
     poly = G.polytope(dev, N)
-    feas, witness = G.feasibility(dev, N, poly)
+    box = G.model_box(m)            # the DOCUMENTED per-variable bounds, from the description
+    bd = n_.stack((n_.array(box[0]), n_.array(box[1])), axis=1)
+    table_differs = n_.array(dev.bounds, dtype=float).shape != bd.shape or not n_.allclose(n_.array(dev.bounds, dtype=float), bd, atol=1e-12)
+    feas, witness = G.feasibility(dev, N, poly, box)
     self.ev['real_solves'] += 1
     if feas == 'infeasible':
       self.ev['infeasible_models'] += 1
@@ -417,7 +452,10 @@ class C05(Prop):
                'detail': 'solve returned %s which violates %s by %.3g (model is %s%s); %s' % (x.round(6).tolist(), what, v, feas, ', fixed-flow shortcut' if shortcut else '', where)}]
     if feas == 'infeasible':
       return [{'key': dict(base, kind='returned-on-infeasible'), 'detail': 'LP says the model is infeasible but solve returned a flow within tolerance; %s' % where}]
-    bd = n_.array(dev.bounds, dtype=float)
+    if not n_box_ok(x, box):
+      k = int(n_.argmax(n_.maximum(bd[:, 0] - x, x - bd[:, 1])))
+      return [{'key': dict(base, kind='infeasible-return', shortcut=shortcut, model_feasible=feas),
+               'detail': 'solve returned %s; variable %d = %.6g is outside its documented bounds (%g, %g); %s' % (x.round(6).tolist(), k, x[k], bd[k, 0], bd[k, 1], where)}]
     if shortcut and (bd[:, 0] == bd[:, 1]).all():
       return []          # the only in-bounds flow
     out = []
@@ -438,7 +476,7 @@ class C05(Prop):
     s0flat = n_.array(s0, dtype=float).flatten() if s0 is not None else n_.array(dev.project(n_.zeros(dev.shape)), dtype=float).flatten()
     f, g = self.objective(dev, p, prox, s0flat)
     gx = g(x)
-    r = G.lp(gx, dev, N, poly)
+    r = G.lp(gx, dev, N, poly, box)
     if r.status != 0:
       return out
     gap = float(r.fun - gx.dot(x))
@@ -451,17 +489,81 @@ class C05(Prop):
     if gap < -1e-4*scale:
       # a suspicious gap: exhibit a strictly better feasible point, or accept (the gap bounds, it does not measure, sub-optimality)
       self.ev['refined_searches'] += 1
-      best, xb = G.better_point(f, g, dev, N, x, [r.x, witness, x + 0.5*(r.x - x), x])
+      best, xb = G.better_point(f, g, dev, N, x, [r.x, witness, x + 0.5*(r.x - x), x], box=box, m=m)
       fx = f(x)
       if xb is not None and fx - best > 1e-5*max(1.0, abs(best)):
-        out.append({'key': dict(base, kind='suboptimal', licq=ok_licq, shortcut=shortcut, dup=G.parallel_active_pair(dev, N, poly, x)),
+        out.append({'key': dict(base, kind='suboptimal' if not table_differs else 'suboptimal-vs-documented-bounds', licq=ok_licq, shortcut=shortcut,
+                             dup=G.parallel_active_pair(dev, N, poly, x)),
                     'detail': 'solve reported success at %s with objective %.9g, but the feasible flow %s (max violation %.1e) has objective %.9g; certificate gap %.3g; '
-                              'active constraint gradients linearly %s; %s' % (x.round(6).tolist(), fx, xb.round(6).tolist(), G.violation(dev, xb)[0], best, gap,
-                                                                               'independent' if ok_licq else 'DEPENDENT', where)})
+                              'active constraint gradients linearly %s; %s' % (x.round(6).tolist(), fx, xb.round(6).tolist(), G.violation(dev, xb, m, box)[0], best, gap,
+                                                                               'independent' if ok_licq else 'DEPENDENT', where) + (
+                      '; NOTE device.bounds %s differs from the documented per-variable bounds %s' % (n_.array(dev.bounds).tolist(), bd.tolist()) if table_differs else '')})
+    if table_differs and not out:
+      out.append({'key': dict(base, kind='bounds-table'), 'detail': 'device.bounds %s differs from the documented per-variable bounds %s; %s' % (
+        n_.array(dev.bounds).tolist(), bd.tolist(), where)})
     return out
 
+  def oracle_history(self, case):
+    """solve (or merely read the tree), re-rate a leaf through its public setters, solve the SAME tree again; the result is judged
+    against a fresh twin built from the final parameters: feasible for the twin (documented limits and its constraints), and
+    the same outcome / cost as the twin's own solve."""
+    n_ = np()
+    S = G.solve_module()
+    m, edit = case['model'], case['edit']
+    m2 = G.edited_model(m, edit)
+    dev = G.build_model(m)
+    twin = G.build_model(m2)
+    R, n = G.model_rows(m), m['n']
+    base = {'classes': sorted(set(l['dev']['cls'] for l in G.all_leaves(m['tree']))), 'mf': False, 'rows': R, 'first': case['first']}
+    if not (SG.safe_to_solve(dev) and SG.safe_to_solve(twin)):
+      self.ev['scipy_unsafe_skipped'] += 1
+      return []
+    p = G.price_arg(case['p'])
+    self.ev['histories'] = self.ev.get('histories', 0) + 1
+    where = 'tree %s, price %s, first call: %s, then leaf %s re-rated to bounds %s / %s%s%s' % (
+      base['classes'], case['p'], case['first'], edit['leaf'], edit['lb'], edit['hb'],
+      (', cbounds %s' % edit['cbs']) if 'cbs' in edit else '', (', a=%s' % edit['a']) if 'a' in edit else '')
+    def run(d):
+      try:
+        s, o = S.solve(d, p)
+        return ('ok', n_.array(s, dtype=float))
+      except S.OptimizationException:
+        return ('raise', None)
+    try:
+      if case['first'] == 'solve':
+        run(dev)
+      else:
+        G.touch(dev)
+      G.apply_edit(dev, edit)
+      r1 = run(dev)
+      r2 = run(twin)
+    except Exception as e:
+      return [{'key': dict(base, kind='wrong-exception', exc=type(e).__name__), 'detail': '%s: %s in a solve / re-rate / solve history; %s' % (type(e).__name__, str(e)[:120], where)}]
+    if r1[0] != r2[0]:
+      return [{'key': dict(base, kind='history-differs'), 'detail': 'after the history solve %s, a fresh twin built from the final parameters %s; %s' % (
+        'returned' if r1[0] == 'ok' else 'raised', 'returned' if r2[0] == 'ok' else 'raised', where)}]
+    if r1[0] == 'raise':
+      return []
+    x1, x2 = r1[1].reshape(-1), r2[1].reshape(-1)
+    if r1[1].shape != (R, n):
+      return [{'key': dict(base, kind='shape'), 'detail': 'shape %s after a history; %s' % (r1[1].shape, where)}]
+    v, what = G.violation(twin, x1, m2)
+    box = G.model_box(m2)
+    if not n_box_ok(x1, box):
+      bd = n_.stack((n_.array(box[0]), n_.array(box[1])), axis=1)
+      k = int(n_.argmax(n_.maximum(bd[:, 0] - x1, x1 - bd[:, 1])))
+      v, what = max(v, float(max(bd[k, 0] - x1[k], x1[k] - bd[k, 1]))), 'the CURRENT bounds (%g, %g) of variable %d (value %.6g)' % (bd[k, 0], bd[k, 1], k, x1[k])
+    if v > 1e-6:
+      return [{'key': dict(base, kind='stale-after-setter'), 'detail': 'the second solve of the same tree returned %s which violates %s by %.3g; a fresh twin returns %s; %s' % (
+        x1.round(6).tolist(), what, v, x2.round(6).tolist(), where)}]
+    c1, c2 = float(twin.cost(x1, p)), float(twin.cost(x2, p))
+    if abs(c1 - c2) > 1e-5*max(1.0, abs(c2)):
+      return [{'key': dict(base, kind='history-cost'), 'detail': 'the second solve of the same tree costs %.9g, a fresh twin\'s solve %.9g; %s' % (c1, c2, where)}]
+    case['_active'] = True
+    return []
+
   def nontrivial(self, case):
-    return case['kind'] in ('real', 'closed') and bool(case.get('_active'))
+    return case['kind'] in ('real', 'closed', 'history') and bool(case.get('_active'))
 
   def canon(self, case):
     import json
